@@ -401,14 +401,38 @@ impl Case {
             }
             s.push_str("            }\n        },\n");
         }
-        s.push_str("    }\n}\nmain :: () {\n    gx : i32 = 77;\n    oy : Other = Other.Y.(8);\n");
+        s.push_str("    }\n}\n");
+        // the same switch used as a VALUE; every second arm leaves the function with `return`
+        // instead of yielding a value (fix 97f7ffe: such a switch failed Cranelift verification)
+        s.push_str("fv :: (e: T) -> i32 {\n    x := switch v in e {\n");
+        for (i, a) in self.arms.iter().enumerate() {
+            if i % 2 == 1 {
+                s.push_str(&format!("        {} => {{ return {}; }},\n", self.arm_text(a), 100 + i));
+            } else {
+                s.push_str(&format!("        {} => {i},\n", self.arm_text(a)));
+            }
+        }
+        if self.default {
+            s.push_str("        _ => 99,\n");
+        }
+        s.push_str("    };\n    x + 1000\n}\n");
+        s.push_str("main :: () {\n    gx : i32 = 77;\n    oy : Other = Other.Y.(8);\n");
         for k in 0..self.n_variants() {
             let (setup, expr) = self.value_of(k);
             s.push_str(&setup);
             s.push_str(&format!("    core.print(\"k{k} \");\n    f({expr});\n"));
+            s.push_str(&format!("    core.print(\"v{k} \");\n    core.println(fv({expr}));\n"));
         }
         s.push_str("}\n");
         s
+    }
+    /// expected `v{k} N` line of the value switch
+    pub fn oracle_value_line(&self, k: usize) -> String {
+        match self.arms.iter().position(|a| self.names(a) == Some(k)) {
+            Some(i) if i % 2 == 1 => format!("v{k} {}", 100 + i),
+            Some(i) => format!("v{k} {}", 1000 + i),
+            None => format!("v{k} 1099"),
+        }
     }
     /// expected stdout line for variant k, from the property text
     pub fn oracle_line(&self, k: usize) -> String {
@@ -1051,6 +1075,14 @@ fn run_e2e(checked: &[Checked], fixed: bool, limit: usize, rng: &mut Rng, rep: &
                 let impl_t = if ran { got_target } else if out.compiler_panicked() { "panic".to_string() } else { "not-run".to_string() };
                 if m != impl_t {
                     rep.disagree(input.clone(), json!(format!("variant {k}: {impl_t}")), json!(format!("variant {k}: {m} ({model})")));
+                }
+            }
+            if ran {
+                let wantv = c.oracle_value_line(k);
+                let gotv = lines.iter().find(|l| l.starts_with(&format!("v{k} "))).cloned().unwrap_or_else(|| "MISSING".into());
+                rep.hit(if wantv.len() == format!("v{k} ").len() + 3 { "e2e:value-switch:arm-returned" } else { "e2e:value-switch:arm-yielded" });
+                if gotv != wantv {
+                    rep.oracle_fail("value-switch-wrong-arm", input.clone(), json!(gotv), json!(wantv), "the switch used as a value did not yield the value of (or leave through) the arm of the value's variant");
                 }
             }
             if got != want {
